@@ -335,9 +335,13 @@ pub fn antiamp(trace: &[Value]) -> Vec<Value> {
             "Rx" if e["kind"] != "conn" && e["kind"] != "noroute" && e["kind"] != "stale" => {
                 // a datagram that was not routed to an existing connection
                 // judged from the invariant header bytes alone: long header, type Initial, version 1
+                // (an Initial of a version the endpoint does not speak is version negotiation's business)
+                let ver = e["ver"].as_i64().unwrap_or(-1);
+                let supported = ver == 1 || (0xff00_001d..=0xff00_0022).contains(&ver);
                 let short_init = e["size"].as_i64().unwrap_or(0) < 1200
+                    && supported
                     && (e["pk"][0]["ty"] == "I"
-                        || (e["long"] == true && e["first"].as_i64().unwrap_or(0) & 0x30 == 0 && e["ver"] == 1))
+                        || (e["long"] == true && e["first"].as_i64().unwrap_or(0) & 0x30 == 0 && ver == 1))
                     && e["n"] == 0;
                 let same = e["ep_pre"] == e["ep_post"];
                 out.push(json!({"ev":"RxEp","t":e["t"],"n":e["n"],"size":e["size"],"kind":e["kind"],
@@ -1110,6 +1114,7 @@ pub fn project(name: &str, trace: &[Value]) -> Vec<Value> {
         "ecn" => crate::proj_ecn::ecn(trace),
         "hs" => crate::proj_hs::hs(trace),
         "sched" => crate::proj_sched::sched(trace),
+        "dispatch" => crate::proj_dispatch::dispatch(trace),
         "migration" => crate::proj_c15::migration(trace),
         "dgram" => crate::proj_c16::dgram(trace),
         "zerortt" => crate::proj_c17::zerortt(trace),
